@@ -18,7 +18,7 @@ for i in range(1, 21):
         fb = FactBase(core.extract(units, d))
         s = set()
         for fn in fb.all_fns():
-            if fn.file in files and not fn.lambda_ and fn.kind == "method":
+            if fn.file in files and not fn.lambda_ and fn.kind in ("method", "function"):
                 s.add(core.fn_base_name(fn))
         out[p] = sorted(s)
         print(p, len(s), flush=True)
